@@ -94,6 +94,14 @@ void vh_ctx_free(vh_ctx_t * v);      /* drains the error queue first (releases t
 void vh_ctx_clear_capture(vh_ctx_t * v);
 #define VH_OF(context) ((vh_ctx_t *) (context)->user_context)
 
+/* which formatter / converter the LIBRARY was compiled with (the harness itself is always C99: in the c89 flavour the library's own
+ * feature tests came out differently from the ones the harness sees in the headers) */
+#ifndef VH_LIB_C89
+#define VH_LIB_C89 0
+#endif
+#define VH_LIB_DTOSTRE (USE_CUSTOM_DTOSTRE || VH_LIB_C89)   /* SCPI_dtostre instead of snprintf %g */
+#define VH_LIB_NO_STRTOF VH_LIB_C89                          /* decimal -> float goes through strtod (library's documented fallback) */
+
 scpi_result_t vh_handler(scpi_t * context);
 /* called by vh_handler on entry (stage 0) and between the last parameter and the first result (stage 1): lets a check do what an
  * application may do inside a callback, e.g. run the parser of ANOTHER context (all library state is per context) */
